@@ -50,7 +50,7 @@ def mod():
 def _ir(draw):
     # wrapped and unwrapped artefacts of the SAME description are compared, so every shape is fair game
     ir = draw(domain.ir_strategy(allowed=tuple(domain.MUTATORS), min_params=1, max_params=4,
-                                 forced=draw(st.sampled_from((None, "str_with_space", "str_with_space", "returns_default", "code_default")))))
+                                 forced=draw(st.sampled_from((None, "str_with_space", "str_with_space", "returns_default", "code_default", "spaced_literal")))))
     for i, p in enumerate(ir["params"]):
         if "doc" in p:
             extra = draw(st.integers(0, 25))
@@ -66,7 +66,30 @@ def _batch(draw):
     widths = _CFG["widths"]
     if widths == "sweep":  # 40..200 in steps of 4 with a drawn offset, so that all residues are visited across batches
         widths = ["unset"] + list(range(40 + draw(st.integers(0, 3)), 201, 4))
-    return {"irs": draw(st.lists(_ir(), min_size=n, max_size=n)), "widths": list(widths)}
+    irs = draw(st.lists(_ir(), min_size=n, max_size=n))
+    if widths == "boundary":
+        widths = _boundary_widths(irs, draw(st.integers(0, 2 ** 16)))
+    return {"irs": irs, "widths": list(widths)}
+
+
+def _boundary_widths(irs, salt, cap=40):
+    """Widths equal to (and one below / above) the length of an actual line of the unwrapped artefacts: the widths at which
+    'fits exactly' turns into 'must wrap'. The unwrapped emission does not depend on the width, so it is computed here."""
+    lens = set()
+    for ir in irs:
+        for kind in kinds.KINDS:
+            try:
+                text = kinds.emit_text(kind, domain.to_ir(ir), dict(kinds.default_opts(kind), word_wrap=False))
+            except Exception:
+                continue
+            lens |= {len(l) for l in text.split("\n")}
+    cand = sorted({w for L in lens for w in (L - 1, L, L + 1) if 40 <= w <= 200})
+    if len(cand) > cap:  # deterministic thinning that keeps triples (L-1, L, L+1) together
+        exact = sorted(L for L in lens if 40 <= L <= 200)
+        step = max(1, -(-len(exact) * 3 // cap))
+        pick = exact[salt % step::step]
+        cand = sorted({w for L in pick for w in (L - 1, L, L + 1) if 40 <= w <= 200})
+    return cand or [80]
 
 
 def strategy(mode, knob=None):
@@ -183,6 +206,9 @@ def extra_phases(coll, tier, seed_value, shard, nshards):
     try:
         _CFG.update(irs=3, widths=["unset"] + list(range(40, 201)))
         hyp_survey(mod(), coll, "core", None, 1 if tier == "quick" else 6, (seed_value + 4242) % (2 ** 32))
+        # widths placed exactly on the line lengths of the batch's own artefacts
+        _CFG.update(irs=4, widths="boundary")
+        hyp_survey(mod(), coll, "core", None, 3 if tier == "quick" else 24, (seed_value + 9191) % (2 ** 32))
     finally:
         _CFG.update(saved)
 
